@@ -271,9 +271,17 @@ fn s_bfs(ctx: &mut Ctx, p: &SParams, depth: usize) {
 }
 
 fn s_replay(ctx: &mut Ctx, p: &SParams, acts: &[SAct]) {
-    let mut b = match s_new(p) {
-        Ok(b) => b,
-        Err(_) => return,
+    let case0 = || json!({"Sparse": {"params": p, "acts": []}});
+    let mut b = match guard(|| s_new(p)) {
+        Ok(Ok(b)) => b,
+        Ok(Err(e)) => {
+            ctx.require(|| "SparseBuilder.new".to_string(), !p.multiset && p.capacity > p.universe, case0, || json!({"observed": format!("Err({})", e), "expected": "Ok"}));
+            return;
+        }
+        Err(msg) => {
+            ctx.panic_violation("SparseBuilder.new", &msg, None, case0);
+            return;
+        }
     };
     let mut r = SRef { p: p.clone(), accepted: vec![] };
     for (k, act) in acts.iter().enumerate() {
